@@ -19,8 +19,13 @@ Hypotheses carried by the negative theorems (each is needed, see the comments):
 `IdsNonzero` (no identifier is the zero scalar — otherwise other shares get coefficient 0),
 `Hm m ≠ 0`, `g1 ≠ 0`, and for the three substitutions `s' ≠ p j` / `p k ≠ p j` /
 `p j ≠ 0 ∧ Hm m' ≠ Hm m`. "Verifies" is the idealised pairing equation `Verifies` (Spec).
+
+`exec_split_spec` / `exec_recover_secret` connect the executable model `Model/Fr.lean` (the one the
+correspondence driver compares bit-for-bit with herumi) to the abstract theorems in `ZMod r`; they
+carry the hypothesis `Fact (Nat.Prime r)` (primality of the BLS12-381 group order is not proved).
 -/
 import CharonV.Proofs.Tbls
+import CharonV.Proofs.TblsFr
 
 namespace CharonV.Tbls
 
@@ -162,6 +167,50 @@ theorem wrong_message_rejected (t : ℕ) (p : F[X]) (hp : p.degree < t) (S : Fin
     · exact hmm (sub_eq_zero.mp h3)
   exact ⟨hne, fun hv => hne ((verifies_iff g1 hg Hm _ m σ).mp hv)⟩
 
+/-! ### The executable scalar model (`Model/Fr.lean`, compared bit-for-bit with herumi by the
+correspondence driver) satisfies the property — given that `r` is prime (hypothesis). -/
+
+/-- `thresholdSplitInsecure` (model of `Herumi.ThresholdSplitInsecure`) hands out, for identifiers
+`1..n`, the Horner evaluations of one coefficient list of length `t` whose constant term is the
+secret. -/
+theorem exec_split_spec (secret n t : ℕ) (chunks : List ℕ) (sh : List (ℕ × ℕ))
+    (h : TblsExec.thresholdSplitInsecure secret n t chunks = .ok sh) :
+    ∃ cs : List ℕ, cs.length = t ∧ cs.head? = some secret ∧ secret < Fr.r ∧ 2 ≤ t ∧
+      sh = (List.range n).map fun i => (i + 1, Fr.evalPoly cs (i + 1)) := by
+  unfold TblsExec.thresholdSplitInsecure at h
+  by_cases ht : t ≤ 1
+  · simp [ht] at h
+  · by_cases hs : secret ≥ Fr.r
+    · simp [ht, hs] at h
+    · simp only [ht, hs, if_false] at h
+      cases hg : TblsExec.genCoeffs (t - 1) chunks with
+      | none => simp [hg] at h
+      | some cs =>
+        simp only [hg, TblsExec.SplitRes.ok.injEq] at h
+        have hl := TblsExec.genCoeffs_length _ _ _ hg
+        exact ⟨secret :: cs, by simp [hl]; omega, rfl, by omega, by omega, h.symm⟩
+
+/-- **Executable recovery is correct**: Lagrange recovery as computed by `Fr.lagrangeAt0` (the
+function whose output is compared bit-for-bit with `tbls.RecoverSecret`) over any `≥ t` distinct
+identifiers below `r` returns the constant term of the coefficient list — for every coefficient
+list, every identifier list. Hypothesis: `r` is prime. -/
+theorem exec_recover_secret [Fact (Nat.Prime Fr.r)] (c : ℕ) (cs : List ℕ) (ids : List ℕ)
+    (hnd : ids.Nodup) (hlt : ∀ i ∈ ids, i < Fr.r) (hlen : (c :: cs).length ≤ ids.length) :
+    Fr.lagrangeAt0 (ids.map fun i => (i, Fr.evalPoly (c :: cs) i)) = c % Fr.r := by
+  have hcast : ((Fr.lagrangeAt0 (ids.map fun i => (i, Fr.evalPoly (c :: cs) i)) : ℕ) : ZMod Fr.r)
+      = ((c : ℕ) : ZMod Fr.r) := by
+    rw [Fr.cast_lagrangeAt0 ids hnd]
+    have hfun : recover ids.toFinset (fun i => ((Fr.evalPoly (c :: cs) i : ℕ) : ZMod Fr.r)) =
+        recover ids.toFinset (share (Fr.polyOf (c :: cs))) := by
+      unfold recover share idF
+      exact Finset.sum_congr rfl fun j _ => by beta_reduce; rw [Fr.cast_evalPoly]
+    rw [hfun, recover_secret (c :: cs).length (Fr.polyOf (c :: cs)) (Fr.polyOf_degree_lt _)
+      ids.toFinset (by rw [List.toFinset_card_of_nodup hnd]; exact hlen)
+      (idsDistinct_of_lt_char Fr.r _ fun k hk => hlt k (List.mem_toFinset.mp hk)),
+      Fr.polyOf_eval_zero]
+  have h1 := (ZMod.natCast_eq_natCast_iff' _ _ _).mp hcast
+  rwa [Nat.mod_eq_of_lt (Fr.lagrangeAt0_lt _)] at h1
+
 /-! ### Non-vacuity: the hypotheses are satisfiable and the objects compute (over `ℚ`, `G1 = G2 = ℚ`). -/
 
 section Examples
@@ -225,6 +274,12 @@ example :
 contribution has coefficient 0 and a wrong share there goes unnoticed. -/
 example : (lam ({0, 1} : Finset ℕ) 1 : ℚ) = 0 := by
   rw [lam_eq_prod, show ({0, 1} : Finset ℕ).erase 1 = {0} by decide]; norm_num
+
+/-- the executable model computes: 2-of-3 split of 3 with coefficient 2 gives shares 5, 7, 9 and
+identifiers {1,3} recover 3 (kernel evaluation of `Model/Fr.lean`, 255-bit modular arithmetic). -/
+example : TblsExec.thresholdSplitInsecure 3 3 2 [2] = .ok [(1, 5), (2, 7), (3, 9)] := by decide +kernel
+
+example : Fr.lagrangeAt0 [(1, 5), (3, 9)] = 3 := by decide +kernel
 
 end Examples
 
